@@ -94,6 +94,8 @@ contract(
     fresh_nodes=True,
     collector="cmd_strings",
     types={"split": "list[bytes]"},
+    # (the label clause `caret-unescaped iff de-escaping changed the span` needs data[start:end] == full_cmd across the cut, a
+    #  slice-of-slice equality the solver does not establish in budget: it is checked by the bounded stand-in of C16 instead)
     ensures_each={**EACH, "type": "node.type == 'shell.cmd'"},
     hints={"post-loop": ["start <= end"]},
     ensures={"fresh": FRESH, "distinct": DISTINCT},
